@@ -63,6 +63,10 @@ var cancelShapes = []shapeDef{
 	{name: "while_continue", body: "while true\n  x = x + 1\n  continue if x > 3\n  x = x - 1\nend\n"},
 	{name: "until_continue", body: "until false\n  continue\nend\n"},
 	{name: "for_range_continue", body: "for i in 1...\n  continue if i > 2\n  x = x + i\nend\n"},
+	{name: "continue_in_do_finally", body: "loop\n  do\n    x = x + 1\n    continue\n  finally\n    x = x + 0\n  end\nend\n"},
+	{name: "while_continue_in_nested_finally", body: "while x >= 0\n  do\n    do\n      x = x + 1\n      continue if x > 0\n    finally\n      x = x + 0\n    end\n  finally\n    x = x + 0\n  end\nend\n"},
+	{name: "labelled_continue_in_do_finally", body: "$outer: loop\n  loop\n    do\n      x = x + 1\n      continue[outer]\n    finally\n      x = x + 0\n    end\n  end\nend\n"},
+	{name: "break_in_do_finally_outer_loop", body: "loop\n  loop\n    do\n      x = x + 1\n      break\n    finally\n      x = x + 0\n    end\n  end\nend\n"},
 	{name: "for_growing_list", body: "gq := [1]\nfor n in gq\n  gq << n + 1\nend\n"},
 	{name: "for_growing_list_continue", body: "gq := [1]\nfor n in gq\n  gq << n + 1\n  continue\nend\n"},
 	{name: "for_growing_list_in_method", defs: "def grow_forever(a: Int): Int\n  gq := [a]\n  for n in gq\n    gq << n + 1\n  end\n  gq.length\nend\n", body: "x = grow_forever(1)\n"},
